@@ -10,7 +10,7 @@ Import ListNotations.
 Definition mode_of {lk C out} (tk : task lk C out) : bytes := if t_write tk then $"w" else $"r".
 Definition required : list (bytes * bytes) :=
   [ ($"CacheRead", mode_of (T_lookup unit unit (0, 0)));
-    ($"CacheWrite", mode_of (T_insert unit unit (0, 0) tt));
+    ($"CacheWrite", mode_of (T_insert unit unit (0, 0) tt 0));
     ($"FileRead", mode_of (T_load unit unit (fun _ _ => None) (0, 0)));
     ($"Compile", mode_of (T_prepare unit unit (fun _ => tt) 0)) ].
 
